@@ -36,6 +36,39 @@ func c20OpSet(r *RNG, withBadKey bool) []Val {
 	return ops
 }
 
+// the BlockWriteOpener path: two writers; writer 1 is written in two parts and committed under key a (the
+// bytes are a's data), writer 2 gets other bytes and is committed under key b; plus the plain ops that
+// make the interleavings interesting (a callback, a Has, a plain Put of a, Close)
+func c20OpenerOpSet(r *RNG) []Val {
+	d1 := r.Bytes(2 + r.Intn(20))
+	a := Blk{mkCid(1, 0x55, mh.SHA2_256, -1, d1), d1}
+	d2 := r.Bytes(1 + r.Intn(30))
+	b := Blk{mkCid(1, 0x71, mh.SHA2_256, -1, d2), d2}
+	k := func(x Blk) Val { return VB(x.Cid.Bytes()) }
+	return []Val{
+		VL{VT("open"), VN(1)}, VL{VT("write"), VN(1), VB(d1[:1])}, VL{VT("write"), VN(1), VB(d1[1:])}, VL{VT("commit"), VN(1), k(a)},
+		VL{VT("open"), VN(2)}, VL{VT("write"), VN(2), VB(d2)}, VL{VT("commit"), VN(2), k(b)},
+		VL{VT("onput"), VN(1), VN(1)}, VL{VT("has"), k(a)}, VL{VT("put"), k(a), VB(a.Data)}, VL{VT("close")},
+	}
+}
+
+// a history over the opener op set is usable when every write/commit follows an open of its writer
+func c20OpenerValid(ops VL) bool {
+	open := map[uint64]bool{}
+	for _, opv := range ops {
+		op := opv.(VL)
+		switch string(op[0].(VT)) {
+		case "open":
+			open[uint64(op[1].(VN))] = true
+		case "write", "commit":
+			if !open[uint64(op[1].(VN))] {
+				return false
+			}
+		}
+	}
+	return true
+}
+
 type c20Cfg struct {
 	target  uint64
 	v1Given bool
@@ -129,7 +162,7 @@ func emitC20F(c *Ctx, cfg c20Cfg, roots []cid.Cid, ops VL, preKind string, pre [
 		switch string(opv.(VL)[0].(VT)) {
 		case "onput":
 			nOn++
-		case "put":
+		case "put", "commit":
 			if closeAt < 0 {
 				nPut++
 				if firstPut < 0 {
@@ -170,8 +203,10 @@ func c20ExhaustiveF(c *Ctx, r *RNG, cfg c20Cfg, roots []cid.Cid, opset []Val, n 
 		if preMode >= 0 {
 			kind = c20PreKinds[preMode]
 		}
-		count++
-		emitC20F(c, cfg, roots, ops, kind, c20Pre(r, kind, 1200), faults)
+		if c20OpenerValid(ops) {
+			count++
+			emitC20F(c, cfg, roots, ops, kind, c20Pre(r, kind, 1200), faults)
+		}
 		c.Count(fmt.Sprintf("exhaustive:len%d", n))
 		i := n - 1
 		for i >= 0 {
@@ -207,6 +242,14 @@ func c20Example(c *Ctx) {
 	}
 	c.Count("history:coq-example")
 	emitC20(c, c20Cfg{target: 1, o: defaultWOpts}, []cid.Cid{k1}, ops, "absent", nil)
+	// Example C20_example_opener: two writers, partial writes, commit, commit again, a writer committed after Close
+	oops := VL{
+		VL{VT("open"), VN(1)}, VL{VT("write"), VN(1), VB([]byte{1})}, VL{VT("onput"), VN(7), VN(0)}, VL{VT("open"), VN(2)},
+		VL{VT("write"), VN(2), VB([]byte{9, 9, 9})}, VL{VT("has"), k(k1)}, VL{VT("write"), VN(1), VB([]byte{2})},
+		VL{VT("commit"), VN(1), k(k1)}, VL{VT("commit"), VN(1), k(k1)}, VL{VT("put"), k(k3), VB([]byte{3})}, VL{VT("close")},
+		VL{VT("commit"), VN(2), k(k3)},
+	}
+	emitC20(c, c20Cfg{target: 1, o: defaultWOpts}, []cid.Cid{k1}, oops, "absent", nil)
 	// a stream that breaks 5 bytes into the CID of the first block: Put fails, Close's Finalize fails, and
 	// the writer is closed all the same (Example C20_example_failed_finalize)
 	fops := VL{
@@ -250,6 +293,22 @@ func init() {
 				}
 			}
 		}
+		// (1a) the BlockWriteOpener path: every well-formed history of length 4 (5 in the thorough tier) over the
+		// opener op set (two writers, partial writes, commits, repeated commits, abandoned writers, a callback,
+		// Has, a plain Put, Close) on the default path and stream configurations
+		{
+			r := c.R.Fork()
+			opset := c20OpenerOpSet(r)
+			roots := []cid.Cid{mkCid(1, 0x55, mh.SHA2_256, -1, []byte("root"))}
+			n := 4
+			if c.Thorough {
+				n = 5
+			}
+			for _, cfg := range []c20Cfg{cfgs[0], cfgs[3]} {
+				c20Exhaustive(c, r, cfg, roots, opset, n, -1)
+			}
+			c.Count("opener:exhaustive-pass")
+		}
 		// (1b) the history of the Coq Examples C20_example_* (proofs/DeferredFacts.v)
 		c20Example(c)
 		// (2) random longer histories: more callbacks, bad keys, option rows, nil / empty / several roots
@@ -283,6 +342,43 @@ func init() {
 				default:
 					ops = append(ops, VL{VT("close")})
 				}
+			}
+			if r.Chance(40) {
+				// blocks written through the opener: open, one to three writes, then (mostly) a commit, the
+				// steps spread over the history
+				oo := c20OpenerOpSet(r)
+				var extra VL
+				for h := uint64(1); h <= uint64(1+r.Intn(2)); h++ {
+					base := 0
+					if h == 2 {
+						base = 4
+					}
+					extra = append(extra, oo[base])
+					extra = append(extra, oo[base+1])
+					if h == 1 {
+						extra = append(extra, oo[2])
+					}
+					if r.Chance(80) {
+						extra = append(extra, oo[base+len(oo[:4])-1-int(h-1)])
+						if r.Chance(20) {
+							extra = append(extra, oo[base+len(oo[:4])-1-int(h-1)])
+						}
+					}
+				}
+				// merge keeping the relative order of the opener steps
+				var merged VL
+				i, j := 0, 0
+				for i < len(ops) || j < len(extra) {
+					if j < len(extra) && (i >= len(ops) || r.Chance(35)) {
+						merged = append(merged, extra[j])
+						j++
+					} else {
+						merged = append(merged, ops[i])
+						i++
+					}
+				}
+				ops = merged
+				c.Count("history:with-opener")
 			}
 			c.Count("history:random")
 			kind := pick(r, c20PreKinds)
